@@ -110,7 +110,7 @@ theorem getMiscut_setMiscut (k s : V3 ℝ) (t : ℝ) (hk : V3.norm k = 1) (hs : 
   have hnax : V3.norm (V3.smul (Real.sin t) k) = Real.sin t := by rw [V3.norm_smul_pos _ hsin, hk, mul_one]
   have hcos1 : |Real.cos t| ≤ 1 := Real.abs_cos_le_one t
   unfold Miscut.getMiscut
-  simp only [hcross, hdot, hnr, hnax, div_one]
+  simp only [hcross, hdot, hnr, hns, hnax, mul_one, div_one]
   have h1 : Scalar.lt (Scalar.abs (Real.sin t)) (Scalar.SMALL : ℝ) = false := by
     simp only [rs_lt, rs_abs, Scalar.SMALL, Scalar.ofSci, decide_eq_false_iff_not, not_lt]
     rw [abs_of_pos hsin]; norm_num at hbig ⊢; linarith
@@ -135,6 +135,55 @@ theorem getMiscut_setMiscut (k s : V3 ℝ) (t : ℝ) (hk : V3.norm k = 1) (hs : 
   congr 2
   rw [V3.unit_eq_smul _ (by rw [hnax]; exact hsin), hnax]
   ext <;> simp only [V3.smul] <;> field_simp
+
+theorem abs_dot_le_norms (a b : V3 ℝ) : |V3.dot a b| ≤ V3.norm a * V3.norm b := by
+  have hl : V3.dot (V3.cross a b) (V3.cross a b) = V3.dot a a * V3.dot b b - V3.dot a b ^ 2 := by
+    simp only [V3.dot, V3.cross]; ring
+  have hn : 0 ≤ V3.dot (V3.cross a b) (V3.cross a b) := by
+    simp only [V3.dot]; nlinarith [mul_self_nonneg (V3.cross a b).x, mul_self_nonneg (V3.cross a b).y, mul_self_nonneg (V3.cross a b).z]
+  have h1 : V3.norm a * V3.norm a = V3.dot a a := by simp only [V3.norm, rs_sqrt]; exact Real.mul_self_sqrt (V3.normSq_nonneg a)
+  have h2 : V3.norm b * V3.norm b = V3.dot b b := by simp only [V3.norm, rs_sqrt]; exact Real.mul_self_sqrt (V3.normSq_nonneg b)
+  have hab := mul_nonneg (V3.norm_nonneg a) (V3.norm_nonneg b)
+  apply abs_le_of_sq_le_sq _ hab
+  nlinarith
+
+/-- **C11 (textual reports) / C08**: `get_miscut` never leaves through `bound`'s AssertionError, whatever the length of the surface vector —
+    the defect of the pinned tree (`cos = s·Us / |Us|`, not divided by `|s|`) made `str(UBCalculation)` raise for `surf_nphi = (0, 0, 2)` -/
+theorem getMiscut_total (U : M3 ℝ) (hU : IsRot U) (s : V3 ℝ) : ∃ r, Miscut.getMiscut U s = .ok r := by
+  unfold Miscut.getMiscut
+  simp only []
+  split
+  · exact ⟨_, rfl⟩
+  · have hle := abs_dot_le_norms s (M3.mulVec U s)
+    have hn := norm_rot U hU s
+    have hx : |V3.dot s (M3.mulVec U s) / (V3.norm s * V3.norm (M3.mulVec U s))| ≤ 1 := by
+      by_cases h0 : V3.norm s * V3.norm (M3.mulVec U s) = 0
+      · rw [h0, div_zero, abs_zero]; norm_num
+      · have hpos : 0 < V3.norm s * V3.norm (M3.mulVec U s) :=
+          lt_of_le_of_ne (mul_nonneg (V3.norm_nonneg _) (V3.norm_nonneg _)) (Ne.symm h0)
+        rw [abs_div, abs_of_pos hpos]
+        exact (div_le_one hpos).mpr hle
+    obtain ⟨l, u⟩ := abs_le.mp hx
+    have hb : PyOps.bound (V3.dot s (M3.mulVec U s) / (V3.norm s * V3.norm (M3.mulVec U s)))
+        = .ok (V3.dot s (M3.mulVec U s) / (V3.norm s * V3.norm (M3.mulVec U s))) := by
+      unfold PyOps.bound
+      have a1 : Scalar.lt ((Scalar.one : ℝ) + Scalar.SMALL) (Scalar.abs (V3.dot s (M3.mulVec U s) / (V3.norm s * V3.norm (M3.mulVec U s)))) = false := by
+        simp only [rs_lt, rs_abs, rs_one, Scalar.SMALL, Scalar.ofSci, decide_eq_false_iff_not, not_lt]
+        have : (0:ℝ) ≤ OfScientific.ofScientific 1 true 7 := by norm_num
+        linarith
+      have a2 : Scalar.lt (Scalar.one : ℝ) (V3.dot s (M3.mulVec U s) / (V3.norm s * V3.norm (M3.mulVec U s))) = false := by
+        simp only [rs_lt, rs_one, decide_eq_false_iff_not, not_lt]; exact u
+      have a3 : Scalar.lt (V3.dot s (M3.mulVec U s) / (V3.norm s * V3.norm (M3.mulVec U s))) (-(Scalar.one : ℝ)) = false := by
+        simp only [rs_lt, rs_one, decide_eq_false_iff_not, not_lt]; exact l
+      simp only [a1, a2, a3, Bool.false_eq_true, if_false]
+    have ha : PyOps.pyAcos (V3.dot s (M3.mulVec U s) / (V3.norm s * V3.norm (M3.mulVec U s)))
+        = .ok (Real.arccos (V3.dot s (M3.mulVec U s) / (V3.norm s * V3.norm (M3.mulVec U s)))) := by
+      unfold PyOps.pyAcos
+      have : Scalar.lt (Scalar.one : ℝ) (Scalar.abs (V3.dot s (M3.mulVec U s) / (V3.norm s * V3.norm (M3.mulVec U s)))) = false := by
+        simp only [rs_lt, rs_abs, rs_one, decide_eq_false_iff_not, not_lt]; exact hx
+      simp only [this, Bool.false_eq_true, if_false, rs_acos]
+    simp only [hb, ha, bind, Except.bind, pure, Except.pure]
+    exact ⟨_, rfl⟩
 
 /-- **C08 / C15**: the matrix built from any point of the optimiser's box is a proper rotation -/
 theorem quatRot_isRot (u1 u2 u3 : ℝ) (h0 : 0 ≤ u1) (h1 : u1 ≤ 1) :
